@@ -435,3 +435,13 @@ pub fn shift_to_interior(cones: &[crate::solver::SupportedConeT<f64>], s: &mut V
     s.copy_from_slice(&v.s);
     z.copy_from_slice(&v.z);
 }
+
+/// y = Hs x with the scaling currently held by a solver's composite cone (the operator used to
+/// recover the slack step).
+pub fn cones_mul_hs(cones: &mut crate::solver::core::cones::CompositeCone<f64>, x: &[f64]) -> Vec<f64> {
+    use crate::solver::core::cones::Cone;
+    let mut y = vec![0.0; x.len()];
+    let mut work = vec![0.0; x.len()];
+    cones.mul_Hs(&mut y, x, &mut work);
+    y
+}
